@@ -284,6 +284,94 @@ theorem feed_line (D : Desc) (tmpl : SvcIn) (s0 : St)
     rw [feed_add, hf]
     exact hfs
 
+/-! ### all three request forms that start a search -/
+
+/-- what may follow the name, and the request type it selects: LF — RUN; `?` LF — READ; `=` — WRITE
+(the argument text follows; `=?` becomes TEST later, in PARSE_COMMAND_ARGS: `C02_suffix_test`) -/
+def Suffix (sfx : List Byte) (typ : CmdType) : Prop :=
+  (sfx = [10] ∧ typ = .run) ∨ (sfx = [63, 10] ∧ typ = .read) ∨ (sfx = [61] ∧ typ = .write)
+
+/-- after a non-empty name, each suffix starts the search with its request type; the table is untouched -/
+theorem feed_suffix (D : Desc) (tmpl : SvcIn) (s1 : St) (sfx : List Byte) (typ : CmdType) (rest : List Byte)
+    (hs1 : s1.state = .parseCommandChar) (hl1 : s1.length ≠ 0) (hct1 : s1.cmdType = .run) (h : Suffix sfx typ) :
+    ∃ (k : Nat) (s2 : St), k ≤ 2 ∧ feed D tmpl k s1 (sfx ++ rest) = (s2, rest) ∧
+      s2.state = .searchCommand ∧ s2.index = 0 ∧ s2.partialCntr = 0 ∧ s2.cmd = none ∧ s2.buf = s1.buf ∧ s2.cmdType = typ := by
+  have hr : Reading s1.state := by rw [hs1]; unfold Reading; simp
+  have t10 : toUpper 10 = 10 := by decide
+  have t61 : toUpper 61 = 61 := by decide
+  have t63 : toUpper 63 = 63 := by decide
+  rcases h with ⟨rfl, rfl⟩ | ⟨rfl, rfl⟩ | ⟨rfl, rfl⟩
+  · refine ⟨1, (commandService D s1 { tmpl with rd := some 10 }).1, by omega, ?_, ?_⟩
+    · simp only [feed, if_pos hr, List.cons_append, List.nil_append, List.head?_cons, List.tail_cons]
+    · unfold commandService parseCommand readCmdChar
+      simp [hs1, St.emit, t10, hl1, prepareSearchCommand, hct1]
+  · -- `?` then LF
+    have h1 : feed D tmpl 1 s1 (63 :: 10 :: rest) = ((commandService D s1 { tmpl with rd := some 63 }).1, 10 :: rest) := by
+      simp only [feed, if_pos hr, List.head?_cons, List.tail_cons]
+    generalize hs2 : (commandService D s1 { tmpl with rd := some 63 }).1 = sa at h1
+    have ea : sa.state = .waitReadAck ∧ sa.cmdType = .read ∧ sa.buf = s1.buf := by
+      rw [← hs2]
+      unfold commandService parseCommand readCmdChar
+      simp [hs1, St.emit, t63, hl1]
+    have hra : Reading sa.state := by rw [ea.1]; unfold Reading; simp
+    refine ⟨2, (commandService D sa { tmpl with rd := some 10 }).1, by omega, ?_, ?_⟩
+    · rw [show (2 : Nat) = 1 + 1 from rfl, feed_add]
+      simp only [List.cons_append, List.nil_append]
+      rw [h1]
+      simp only [feed, if_pos hra, List.head?_cons, List.tail_cons]
+    · have := ea
+      unfold commandService waitReadAcknowledge readCmdChar
+      simp [ea.1, St.emit, t10, prepareSearchCommand, ea.2.1, ea.2.2]
+  · refine ⟨1, (commandService D s1 { tmpl with rd := some 61 }).1, by omega, ?_, ?_⟩
+    · simp only [feed, if_pos hr, List.cons_append, List.nil_append, List.head?_cons, List.tail_cons]
+    · unfold commandService parseCommand readCmdChar
+      simp [hs1, St.emit, t10, t61, hl1, prepareSearchCommand]
+
+/-- **From `AT` to COMMAND_FOUND, for RUN, READ and WRITE requests.** -/
+theorem feed_request (D : Desc) (tmpl : SvcIn) (s0 : St)
+    (hcap : D.commandsNum ≤ 4 * D.cmdCap) (hbuf : D.cmdCap ≤ s0.buf.length) (hnum : 0 < D.commandsNum)
+    (hst : s0.state = .parseCommandChar) (hl0 : Lanes D s0 []) (hlen : s0.length = 0) (hidx : s0.index = 0)
+    (hct : s0.cmdType = .run)
+    (cs : List Byte) (hne : cs ≠ []) (hall : ∀ b ∈ cs, NameCh b) (sfx : List Byte) (typ : CmdType) (hsfx : Suffix sfx typ)
+    (rest : List Byte) :
+    ∃ (n : Nat) (p q : List Byte) (s' : St), n ≤ (cs.length + 1) * (D.commandsNum + 1) + 1 ∧ cs = p ++ q ∧ p ≠ [] ∧
+      ((q = [] ∧ feed D tmpl n s0 (cs ++ (sfx ++ rest)) = (s', rest) ∧ s'.cmdType = typ) ∨
+       (feed D tmpl n s0 (cs ++ (sfx ++ rest)) = (s', q ++ (sfx ++ rest)) ∧ s'.cmdType = .write)) ∧
+      (∀ j, Spec.resolve (Spec.lane D (p.map toUpper)) D.commandsNum = some j →
+          s'.state = .commandFound ∧ s'.cmd = some j) ∧
+      (Spec.resolve (Spec.lane D (p.map toUpper)) D.commandsNum = none → NotFound s') := by
+  obtain ⟨n, p, q, s1, hn, hpq, hf, hat, hcase⟩ :=
+    feed_name D tmpl s0 hcap hbuf hnum hst hl0 hlen hidx hct cs hall (sfx ++ rest)
+  have hmul : (cs.length + 1) * (D.commandsNum + 1) = cs.length * (D.commandsNum + 1) + (D.commandsNum + 1) := by
+    rw [Nat.add_mul]; omega
+  rcases hcase with ⟨hq, hs1, hct1⟩ | ⟨hp, hs1, hct1, hpc, hcmd⟩
+  · subst hq
+    simp only [List.append_nil] at hpq
+    subst hpq
+    have hl1 : s1.length ≠ 0 := by
+      rw [hat.length]; cases cs with
+      | nil => exact absurd rfl hne
+      | cons _ _ => simp
+    obtain ⟨k, s2, hk, hfk, e1, e2, e3, e4, e5, e6⟩ := feed_suffix D tmpl s1 sfx typ rest hs1 hl1 hct1 hsfx
+    have hl2 : Lanes D s2 (cs.map toUpper) := by
+      intro j hj; rw [laneOf_congr D s2 s1 j e5]; exact hat.lanes j hj
+    obtain ⟨m, hm, hfs⟩ := feed_search D tmpl D.commandsNum s2 rest e1
+    have ⟨u1, u2, u3, u4⟩ := search_total D (cs.map toUpper) s2 hnum e1 e2 e3 e4 hl2
+    refine ⟨n + (k + m), cs, [], searchIter D D.commandsNum s2, by omega, by simp, hne, ?_, u3, u4⟩
+    left
+    refine ⟨rfl, ?_, by rw [u1, e6]⟩
+    rw [feed_add, hf]
+    simp only [List.nil_append]
+    rw [feed_add, hfk]
+    exact hfs
+  · obtain ⟨m, hm, hfs⟩ := feed_search D tmpl D.commandsNum s1 (q ++ (sfx ++ rest)) hs1
+    have ⟨u1, u2, u3, u4⟩ := search_total D (p.map toUpper) s1 hnum hs1 hat.index hpc hcmd hat.lanes
+    refine ⟨n + m, p, q, searchIter D D.commandsNum s1, by omega, hpq, hp, ?_, u3, u4⟩
+    right
+    refine ⟨?_, by rw [u1, hct1]⟩
+    rw [feed_add, hf]
+    exact hfs
+
 /-! ### the `AT` prefix -/
 
 /-- From IDLE, `A`/`a` then `T`/`t` lead to the state from which `feed_name`/`feed_line` start: every
